@@ -1,6 +1,9 @@
 (* The BLAKE3 tree mode (paper sections 2.1, 2.4, 2.5, 2.6), parametric in the
-   compression function so that the structural proofs never look inside it.
-   Spec/Blake3.v instantiates it with Spec.Compress.compress. *)
+   two ways the compression function is used, so that the structural proofs never
+   look inside it:
+     c8  cv block blen counter flags = the first 8 output words (a chaining value)
+     c64 cv block blen counter flags = all 16 output words as 64 little-endian bytes
+   Spec/Blake3.v instantiates them with Spec.Compress.compress. *)
 From Coq Require Import NArith List.
 From V Require Import Base.Word Spec.Compress.
 Import ListNotations.
@@ -12,8 +15,8 @@ Definition drop (n : N) (l : list N) : list N := skipn (N.to_nat n) l.
 Definition pad64 (l : list N) : list N := l ++ repeat 0 (64 - length l).
 
 Section Tree.
-  (* compress cv block blen counter flags = 16 words *)
-  Variable compress : list N -> list N -> N -> N -> N -> list N.
+  Variable c8 : list N -> list N -> N -> N -> N -> list N.
+  Variable c64 : list N -> list N -> N -> N -> N -> list N.
 
   (* An Output: everything needed to produce either a chaining value or root bytes *)
   Record output := mkOutput {
@@ -25,11 +28,11 @@ Section Tree.
 
   (* non-root chaining value: first 8 output words as 32 little-endian bytes *)
   Definition chaining_value (o : output) : list N :=
-    bytes_of_words (firstn 8 (compress (o_cv o) (o_block o) (o_blen o) (o_ctr o) (o_flags o))).
+    bytes_of_words (c8 (o_cv o) (o_block o) (o_blen o) (o_ctr o) (o_flags o)).
 
   (* k-th 64-byte block of root output: counter k, ROOT flag set *)
   Definition root_block (o : output) (k : N) : list N :=
-    bytes_of_words (compress (o_cv o) (o_block o) (o_blen o) k (N.lor (o_flags o) ROOT)).
+    c64 (o_cv o) (o_block o) (o_blen o) k (N.lor (o_flags o) ROOT).
 
   (* ---- chunks: up to 1024 bytes, blocks of 64, the last one zero-padded ----- *)
   Definition start_flag (first : bool) : N := if first then CHUNK_START else 0.
@@ -40,7 +43,7 @@ Section Tree.
         if len bytes <=? 64 then
           mkOutput cv (pad64 bytes) (len bytes) ctr (N.lor (N.lor key_flags (start_flag first)) CHUNK_END)
         else
-          let cv' := firstn 8 (compress cv (take 64 bytes) 64 ctr (N.lor key_flags (start_flag first))) in
+          let cv' := c8 cv (take 64 bytes) 64 ctr (N.lor key_flags (start_flag first)) in
           chunk_go fuel' key_flags ctr cv' false (drop 64 bytes)
     | O => mkOutput cv (pad64 bytes) (len bytes) ctr (N.lor (N.lor key_flags (start_flag first)) CHUNK_END)
     end.
